@@ -460,8 +460,20 @@ fn serve(state: &Arc<Mutex<TowerState>>, s: &mut TcpStream, path: &str, body: &V
 }
 
 /// Ports: a static range per worker, so that a refused tower's port is never somebody else's tower.
+/// The block of 1000 ports is claimed for the life of this process by holding a listener on its last port,
+/// so that two checks running at the same time never share tower ports.
 pub fn port_for(worker: usize, i: usize) -> u16 {
-    (21000 + 16 * worker + i) as u16
+    static BLOCK: std::sync::OnceLock<(u16, Option<TcpListener>)> = std::sync::OnceLock::new();
+    let (base, _) = BLOCK.get_or_init(|| {
+        for k in 0..20u16 {
+            let base = 11000 + k * 1000;
+            if let Ok(l) = TcpListener::bind(("127.0.0.1", base + 999)) {
+                return (base, Some(l));
+            }
+        }
+        (31000, None)
+    });
+    (*base as usize + 16 * worker + i) as u16
 }
 
 /// (commitment_txid, penalty_tx hex) of revocation number n
